@@ -35,8 +35,9 @@ class Gen:
     """Generates one history and tracks (for biasing and coverage only, never as an oracle)
     the chain each live key class sits in and the number of pooled nodes."""
 
-    def __init__(self, r, container, code, eq, nops, stats):
+    def __init__(self, r, container, code, eq, nops, stats, sparse=False):
         self.r, self.container, self.code, self.eq, self.nops, self.stats = r, container, code, eq, nops, stats
+        self.sparse = sparse
         self.chains = {}        # code -> list of key classes in chain order
         self.rep = {}           # class -> stored representative key
         self.where = {}         # class -> code of the chain it was inserted in
@@ -136,11 +137,54 @@ class Gen:
         v = self.r.choice([0, 0, self.r.randrange(-5, 100), self.r.randrange(-5, 100)])
         return "p:%d:%d:%d" % (k, v, ch)
 
+    def absent_key(self):
+        cand = [k for k in self.universe if py_cls(self.eq, k) not in self.rep]
+        return self.r.choice(cand) if cand else None
+
+    def constant_size_run(self):
+        """2-5 UNOBSERVED mutations that keep the number of entries constant (delete a live key, add an
+        absent one, ...): a cache keyed on the size would not notice them"""
+        ops = []
+        n = self.r.randrange(2, 6)
+        want_del = bool(self.rep) and self.r.random() < 0.7
+        for _ in range(n):
+            if want_del and self.rep:
+                k = self.live_key()
+                self.note_del(k)
+                self.recent_deleted.clear()
+                ops.append("!d:%d" % k)
+            else:
+                k = self.absent_key()
+                if k is None:
+                    break
+                ops.append("!" + self.put_op(k))
+            want_del = not want_del
+        if len(ops) >= 2:
+            self.stats["constant_size_runs"] += 1
+            self.nontrivial = True
+        return ops
+
     def history(self):
+        ops = self.history_ops()
+        if self.sparse:
+            self.stats["sparse_histories"] += 1
+            # full-state observers only at randomly chosen steps (p = 1/3); the last op is always observed
+            ops = [o if (o.startswith("!") or self.r.random() < 1 / 3) else "!" + o for o in ops]
+            if ops and ops[-1].startswith("!"):
+                ops[-1] = ops[-1][1:]
+            self.stats["unobserved_ops"] += sum(1 for o in ops if o.startswith("!"))
+        return ops
+
+    def history_ops(self):
         r = self.r
         ops = []
         mode = r.choice(["mixed", "mixed", "chains", "churn"])
         while len(ops) < self.nops:
+            if self.sparse and r.random() < 0.12:
+                ops += self.constant_size_run()
+                # and an observed read right after the run
+                ops.append("g:%d" % (self.live_key() if r.random() < 0.6 else self.key()))
+                continue
             x = r.random()
             if self.recent_deleted and x < 0.5:
                 # delete-then-reinsert: same key, a colliding one, or an unrelated one
@@ -169,27 +213,69 @@ class Gen:
         return ops
 
 
-def gen_set_history(r, nops):
+def gen_set_history(r, nops, sparse=False, stats=None):
     span = r.choice([3, 6, 12])
+    universe = list(range(-2, span)) + r.sample(BIG, 2)
+    live = set()
     ops = []
-    for _ in range(nops):
-        k = r.randrange(-2, span) if r.random() < 0.9 else r.choice(BIG)
-        ops.append(r.choice(["a", "a", "d", "e"]) + ":%d" % k)
+    while len(ops) < nops:
+        if sparse and r.random() < 0.15 and live and len(live) < len(universe):
+            # unobserved run keeping the size constant: delete a present element, add an absent one, ...
+            n = r.randrange(2, 6)
+            want_del = r.random() < 0.7
+            run = []
+            for _ in range(n):
+                if want_del and live:
+                    k = r.choice(sorted(live))
+                    live.discard(k)
+                    run.append("!d:%d" % k)
+                else:
+                    cand = [k for k in universe if k not in live]
+                    if not cand:
+                        break
+                    k = r.choice(cand)
+                    live.add(k)
+                    run.append("!a:%d" % k)
+                want_del = not want_del
+            ops += run
+            ops.append("e:%d" % r.choice(universe))
+            if stats is not None and len(run) >= 2:
+                stats["constant_size_runs"] += 1
+            continue
+        k = r.randrange(-2, span) if r.random() < 0.9 else r.choice(universe)
+        o = r.choice(["a", "a", "d", "e"])
+        if o == "a":
+            live.add(k)
+        elif o == "d":
+            live.discard(k)
+        ops.append(o + ":%d" % k)
+    if sparse:
+        ops = [o if (o.startswith("!") or r.random() < 1 / 3) else "!" + o for o in ops]
+        if ops[-1].startswith("!"):
+            ops[-1] = ops[-1][1:]
+        if stats is not None:
+            stats["sparse_histories"] += 1
+            stats["unobserved_ops"] += sum(1 for o in ops if o.startswith("!"))
     return ops
 
 
 def new_stats():
     return {k: 0 for k in ["recycled_puts", "del_only", "del_head", "del_mid", "del_tail", "del_absent",
-                           "del_in_chain_ge3", "histories_with_chain_ge3", "lawless_histories"]}
+                           "del_in_chain_ge3", "histories_with_chain_ge3", "lawless_histories",
+                           "sparse_histories", "unobserved_ops", "constant_size_runs"]}
 
 
-def gen_histories(r, containers, n, nops, stats, lawless_frac=0.0):
-    """-> list of (container, code, eq, ops, nontrivial)"""
+def gen_histories(r, containers, n, nops, stats, lawless_frac=0.0, sparse_frac=0.5):
+    """-> list of (container, code, eq, ops, nontrivial).  A fraction sparse_frac of the histories is
+    "sparsely observed": Len/Keys/Values/dump/order list are called only after randomly chosen ops
+    (a leading '!' marks an op after which they are NOT called), incl. runs of 2-5 unobserved mutations
+    that keep the size constant; the return value of every op is still compared."""
     out = []
     for i in range(n):
         container = containers[i % len(containers)]
+        sparse = r.random() < sparse_frac
         if container == "set":
-            out.append((container, "-", "x", gen_set_history(r, nops), True))
+            out.append((container, "-", "x", gen_set_history(r, nops, sparse, stats), True))
             continue
         if container in ("builtin",):
             code, eq = "-", "x"
@@ -200,7 +286,7 @@ def gen_histories(r, containers, n, nops, stats, lawless_frac=0.0):
             if lawless_frac and r.random() < lawless_frac:
                 code, eq = "L" + r.choice(["m2", "m3", "m7"]), "h"
                 stats["lawless_histories"] += 1
-        g = Gen(r, container, code, eq, r.choice([nops, nops, nops // 2, nops // 4 + 1]), stats)
+        g = Gen(r, container, code, eq, r.choice([nops, nops, nops // 2, nops // 4 + 1]), stats, sparse)
         ops = g.history()
         if g.maxchain >= 3:
             stats["histories_with_chain_ge3"] += 1
@@ -315,7 +401,7 @@ def examine(c, binary, h, impl_line, model_line, pid_tag):
         # a concrete history on which the implementation differs from the specification
         mops, md = minimise(c, binary, h)
         if md is not None:
-            last = mops[-1].split(":")[0]
+            last = mops[-1].lstrip("!").split(":")[0]
             c.report("%s:%s:%s:%s" % (pid_tag, container, md[1], last),
                      "%s differs from the abstract map on %s after %s: implementation %r, specification %r"
                      % (container, md[1], ",".join(mops), md[2], md[3]),
